@@ -821,6 +821,11 @@ func (e *Enc) mergeVals(hint string, vs []*Val, conds []string) *Val {
 	if (first.Loc != nil || first.Clos != nil) && allSame {
 		return first
 	}
+	// nil and interior pointers of one shape (same container type, field path; 'F' kind) on different paths: one interior
+	// pointer whose object reference depends on the path, 0 standing for nil
+	if lv := e.mergeNullableLocs(hint, vs, conds); lv != nil {
+		return lv
+	}
 	// different closures on different paths: keep the alternatives with their path conditions
 	allClos := true
 	for _, v := range vs {
@@ -863,6 +868,44 @@ func (e *Enc) mergeVals(hint string, vs []*Val, conds []string) *Val {
 		out.L = append(out.L, Sc{e.define(hint, first.L[i].S, t), first.L[i].S})
 	}
 	return out
+}
+
+func (e *Enc) mergeNullableLocs(hint string, vs []*Val, conds []string) *Val {
+	var proto *Loc
+	for _, v := range vs {
+		switch {
+		case v.Loc != nil:
+			if v.Clos != nil || v.Loc.Kind != 'F' {
+				return nil
+			}
+			if proto == nil {
+				proto = v.Loc
+			} else if proto.Key != v.Loc.Key || proto.Path != v.Loc.Path || typeStr(proto.T) != typeStr(v.Loc.T) {
+				return nil
+			}
+		case v.Clos == nil && len(v.L) == 1 && v.L[0].T == "0":
+			// the nil pointer
+		default:
+			return nil
+		}
+	}
+	if proto == nil {
+		return nil
+	}
+	refOf := func(v *Val) string {
+		if v.Loc != nil {
+			return v.Loc.Ref
+		}
+		return "0"
+	}
+	t := refOf(vs[len(vs)-1])
+	for j := len(vs) - 2; j >= 0; j-- {
+		t = ite(conds[j], refOf(vs[j]), t)
+	}
+	nl := *proto
+	nl.Ref = e.define(hint+"!iptr", "Int", t)
+	nl.Nullable = true
+	return &Val{T: vs[0].T, Loc: &nl}
 }
 
 // edgeCond returns the condition for taking edge from block b (already encoded, end state st) to succ index si.
